@@ -183,6 +183,8 @@ func typeName(e ast.Expr) string {
 		return x.Name
 	case *ast.SelectorExpr:
 		return exprText(x)
+	case *ast.IndexExpr: // generic instantiation: atomic.Pointer[T]
+		return typeName(x.X)
 	}
 	return ""
 }
@@ -255,6 +257,10 @@ type fn struct {
 	heldAcq   map[[2]string]bool  // (mutex held, OTHER mutex acquired lexically under it)
 	recvName  string
 	recvType  string
+	// guarded-by: writes to fields of the receiver's struct (when that struct holds a mutex) made while no
+	// mutex of the receiver is WRITE-held, and every resolved call site with whether one was write-held
+	bareWrites map[string]bool   // "Owner.field"
+	callSites  map[string][]bool // callee -> per call site: a mutex of the caller's receiver write-held
 }
 
 // mutexKey renders the expression a Lock/Unlock is called on.
@@ -324,12 +330,18 @@ func (f *fn) callee(c *ast.CallExpr) string {
 type state struct {
 	held     map[string]bool
 	deferred map[string]bool
+	wheld    map[string]bool // subset of held: taken with Lock (not RLock)
 }
 
+func newState() state { return state{map[string]bool{}, map[string]bool{}, map[string]bool{}} }
+
 func (s state) copy() state {
-	n := state{map[string]bool{}, map[string]bool{}}
+	n := newState()
 	for k := range s.held {
 		n.held[k] = true
+	}
+	for k := range s.wheld {
+		n.wheld[k] = true
 	}
 	for k := range s.deferred {
 		n.deferred[k] = true
@@ -341,6 +353,12 @@ func union(a, b state) state {
 	n := a.copy()
 	for k := range b.held {
 		n.held[k] = true
+	}
+	// write-held only when write-held on BOTH branches (a write after the join is guarded only then)
+	for k := range n.wheld {
+		if !b.wheld[k] {
+			delete(n.wheld, k)
+		}
 	}
 	for k := range b.deferred {
 		n.deferred[k] = true
@@ -383,17 +401,150 @@ func (f *fn) exprCalls(n ast.Node, st *state) {
 					}
 				}
 				st.held[k] = true
+				if x.Fun.(*ast.SelectorExpr).Sel.Name == "Lock" {
+					st.wheld[k] = true
+				}
 			} else if what == "rel" {
 				delete(st.held, f.mutexKey(mx))
+				delete(st.wheld, f.mutexKey(mx))
 			} else if cal := f.callee(x); cal != "" {
 				f.calls[cal] = true
 				for h := range st.held {
 					f.heldCalls[[2]string{h, cal}] = true
 				}
+				f.callSites[cal] = append(f.callSites[cal], f.ownWriteHeld(st))
+			} else {
+				f.callWrites(x, st)
 			}
 		}
 		return true
 	})
+}
+
+// ownWriteHeld: some mutex that belongs to the receiver's struct (or a struct it embeds) is write-held.
+func (f *fn) ownWriteHeld(st *state) bool {
+	if f.recvType == "" {
+		return false
+	}
+	for k := range st.wheld {
+		if i := strings.Index(k, "."); i > 0 && ownsType(f.recvType, k[:i], 0) {
+			return true
+		}
+	}
+	return false
+}
+
+func ownsType(t, owner string, depth int) bool {
+	if t == owner {
+		return true
+	}
+	si := structs[t]
+	if si == nil || depth > 4 {
+		return false
+	}
+	for _, e := range si.embedded {
+		if ownsType(e, owner, depth+1) {
+			return true
+		}
+	}
+	return false
+}
+
+// hasMutex: struct t declares (or embeds a struct that declares) a sync.Mutex / sync.RWMutex, by value or pointer.
+func hasMutex(t string, depth int) bool {
+	si := structs[t]
+	if si == nil || depth > 4 {
+		return false
+	}
+	for f := range si.fields {
+		if si.fields[f] == "sync.Mutex" || si.fields[f] == "sync.RWMutex" {
+			return true
+		}
+	}
+	for _, e := range si.embedded {
+		if hasMutex(e, depth+1) {
+			return true
+		}
+	}
+	return false
+}
+
+// recvField: e is recv.f, recv.f[i], recv.f.g, *recv.f … — the field of the receiver's struct it starts at.
+func (f *fn) recvField(e ast.Expr) (string, bool) {
+	for {
+		switch x := e.(type) {
+		case *ast.ParenExpr:
+			e = x.X
+		case *ast.StarExpr:
+			e = x.X
+		case *ast.IndexExpr:
+			e = x.X
+		case *ast.UnaryExpr:
+			e = x.X
+		case *ast.SelectorExpr:
+			if id, ok := x.X.(*ast.Ident); ok {
+				if id.Name == f.recvName && f.recvType != "" {
+					if owner, _, ok := fieldOwner(f.recvType, x.Sel.Name, 0); ok {
+						return owner + "." + x.Sel.Name, true
+					}
+				}
+				return "", false
+			}
+			e = x.X
+		default:
+			return "", false
+		}
+	}
+}
+
+// noteWrite: a write to a field of the receiver's struct; recorded when the struct holds a mutex and none of
+// its mutexes is write-held here (the mutex fields themselves are not data).
+func (f *fn) noteWrite(e ast.Expr, st *state) {
+	if f.recvType == "" || !hasMutex(f.recvType, 0) {
+		return
+	}
+	key, ok := f.recvField(e)
+	if !ok {
+		return
+	}
+	if i := strings.Index(key, "."); i > 0 {
+		if _, ft, ok := fieldOwner(key[:i], key[i+1:], 0); ok && (ft == "sync.Mutex" || ft == "sync.RWMutex") {
+			return
+		}
+	}
+	if !f.ownWriteHeld(st) {
+		f.bareWrites[key] = true
+	}
+}
+
+var atomicWriters = map[string]bool{"Store": true, "Swap": true, "CompareAndSwap": true, "Add": true}
+
+// callWrites: writes that have the shape of a call — delete(recv.f, k), recv.f.Store(v) (sync/atomic types),
+// atomic.StoreX(&recv.f, v) / atomic.AddX / atomic.SwapX / atomic.CompareAndSwapX.
+func (f *fn) callWrites(c *ast.CallExpr, st *state) {
+	switch fun := c.Fun.(type) {
+	case *ast.Ident:
+		if fun.Name == "delete" && len(c.Args) == 2 {
+			f.noteWrite(c.Args[0], st)
+		}
+	case *ast.SelectorExpr:
+		if id, ok := fun.X.(*ast.Ident); ok && id.Name == "atomic" && len(c.Args) > 0 {
+			n := fun.Sel.Name
+			if strings.HasPrefix(n, "Store") || strings.HasPrefix(n, "Add") || strings.HasPrefix(n, "Swap") || strings.HasPrefix(n, "CompareAndSwap") {
+				f.noteWrite(c.Args[0], st)
+			}
+			return
+		}
+		if atomicWriters[fun.Sel.Name] {
+			if key, ok := f.recvField(fun.X); ok {
+				if i := strings.Index(key, "."); i > 0 {
+					if _, ft, ok := fieldOwner(key[:i], key[i+1:], 0); ok && strings.HasPrefix(ft, "atomic.") {
+						f.noteWrite(fun.X, st)
+					}
+				}
+			}
+		}
+	}
 }
 
 func (f *fn) leakCheck(st state) {
@@ -557,9 +708,14 @@ func (f *fn) stmt(s ast.Stmt, st state) (state, bool) {
 		}
 		for _, e := range x.Lhs {
 			f.exprCalls(e, &st)
+			f.noteWrite(e, &st)
 		}
 		return st, false
-	case *ast.DeclStmt, *ast.IncDecStmt, *ast.SendStmt, *ast.EmptyStmt:
+	case *ast.IncDecStmt:
+		f.exprCalls(s, &st)
+		f.noteWrite(x.X, &st)
+		return st, false
+	case *ast.DeclStmt, *ast.SendStmt, *ast.EmptyStmt:
 		f.exprCalls(s, &st)
 		return st, false
 	}
@@ -573,10 +729,25 @@ func fail(msg string) {
 }
 
 func main() {
-	if len(os.Args) != 3 {
-		fail("usage: locks <repo> <out.lean>")
+	if len(os.Args) != 3 && len(os.Args) != 4 {
+		fail("usage: locks <repo> <out.lean> [<expected unguarded writes>]")
 	}
 	repo, out := os.Args[1], os.Args[2]
+	expected := map[string]bool{}
+	if len(os.Args) == 4 {
+		raw, err := os.ReadFile(os.Args[3])
+		if err != nil {
+			fail("expectation file not readable: " + err.Error())
+		}
+		for _, ln := range strings.Split(string(raw), "\n") {
+			if i := strings.Index(ln, "#"); i >= 0 {
+				ln = ln[:i]
+			}
+			if ln = strings.TrimSpace(ln); ln != "" {
+				expected[ln] = true
+			}
+		}
+	}
 	if gm, err := os.ReadFile(filepath.Join(repo, "lib/go/go.mod")); err == nil {
 		for _, ln := range strings.Split(string(gm), "\n") {
 			f := strings.Fields(ln)
@@ -658,7 +829,7 @@ func main() {
 	}
 	var fns []*fn
 	for _, d := range decls {
-		f := &fn{acquires: map[string]bool{}, heldCalls: map[[2]string]bool{}, calls: map[string]bool{}, leaks: map[string]bool{}, heldAcq: map[[2]string]bool{}}
+		f := &fn{acquires: map[string]bool{}, heldCalls: map[[2]string]bool{}, calls: map[string]bool{}, leaks: map[string]bool{}, heldAcq: map[[2]string]bool{}, bareWrites: map[string]bool{}, callSites: map[string][]bool{}}
 		f.name = d.Name.Name
 		if d.Recv != nil && len(d.Recv.List) == 1 {
 			f.recvType = typeName(d.Recv.List[0].Type)
@@ -667,7 +838,7 @@ func main() {
 				f.recvName = d.Recv.List[0].Names[0].Name
 			}
 		}
-		st, term := f.block(d.Body.List, state{map[string]bool{}, map[string]bool{}})
+		st, term := f.block(d.Body.List, newState())
 		if !term {
 			f.leakCheck(st)
 		}
@@ -676,7 +847,7 @@ func main() {
 		// exact for L), but a literal does not inherit what the enclosing function holds
 		ast.Inspect(d.Body, func(m ast.Node) bool {
 			if lit, ok := m.(*ast.FuncLit); ok {
-				st, term := f.block(lit.Body.List, state{map[string]bool{}, map[string]bool{}})
+				st, term := f.block(lit.Body.List, newState())
 				if !term {
 					f.leakCheck(st)
 				}
@@ -711,6 +882,44 @@ func main() {
 		fns = append(fns, f)
 	}
 	sort.Slice(fns, func(i, j int) bool { return fns[i].name < fns[j].name })
+
+	// guarded-by: a method whose every resolved call site is made with a mutex of the receiver write-held (or
+	// from a method of the same struct family that is itself always called so) runs under its caller's lock;
+	// a method with no resolved call site may be called from anywhere.
+	always := map[string]bool{}
+	recvOf := map[string]string{}
+	for _, f := range fns {
+		recvOf[f.name] = f.recvType
+	}
+	for round := 0; round < 8; round++ {
+		for _, g := range fns {
+			if g.recvType == "" || always[g.name] {
+				continue
+			}
+			sites, ok := 0, true
+			for _, c := range fns {
+				for _, held := range c.callSites[g.name] {
+					sites++
+					if !held && !(always[c.name] && c.recvType != "" && (ownsType(c.recvType, g.recvType, 0) || ownsType(g.recvType, c.recvType, 0))) {
+						ok = false
+					}
+				}
+			}
+			if sites > 0 && ok {
+				always[g.name] = true
+			}
+		}
+	}
+	var unguarded []string
+	for _, f := range fns {
+		if always[f.name] {
+			continue
+		}
+		for k := range f.bareWrites {
+			unguarded = append(unguarded, f.name+":"+k)
+		}
+	}
+	sort.Strings(unguarded)
 
 	// Only what the discipline speaks about is emitted: S = functions that lock something or call under a
 	// lock, R = everything reachable (through resolved calls) from a callee of a call made under a lock —
@@ -891,6 +1100,41 @@ func main() {
 		}
 		fmt.Fprintf(&b, "%q", n)
 		fmt.Printf("SHAREDCTOR %s: the constructor returns a package-level object\n", n)
+	}
+	b.WriteString("]\n\n/-- `method:Struct.field` — a field of a struct that holds a mutex is written (assignment, ++, delete, atomic store)\nin a method while no mutex of that struct is WRITE-held, and the method is not only ever called under one. -/\ndef unguardedWrites : List String := [")
+	for i, n := range unguarded {
+		if i > 0 {
+			b.WriteString(", ")
+		}
+		fmt.Fprintf(&b, "%q", n)
+	}
+	b.WriteString("]\n\n/-- (tag of the struct's lock, site): the unguarded writes that known/locks_unguarded_expected.txt does not classify. -/\ndef unguardedUnexpected : List (Nat × String) := [")
+	first := true
+	seenExp := map[string]bool{}
+	for _, n := range unguarded {
+		if expected[n] {
+			seenExp[n] = true
+			continue
+		}
+		owner := n[strings.Index(n, ":")+1:]
+		owner = owner[:strings.Index(owner, ".")]
+		tag := 0
+		for mk, t := range tags {
+			if strings.HasPrefix(mk, owner+".") {
+				tag = t
+			}
+		}
+		if !first {
+			b.WriteString(", ")
+		}
+		first = false
+		fmt.Fprintf(&b, "(%d, %q)", tag, n)
+		fmt.Printf("UNGUARDED %s is written while no mutex of its struct is write-held (not classified in known/locks_unguarded_expected.txt)\n", n)
+	}
+	for n := range expected {
+		if !seenExp[n] {
+			fmt.Printf("NOTE expected unguarded write %s no longer occurs\n", n)
+		}
 	}
 	fmt.Fprintf(&b, "]\n\n/-- lib/go's go.mod declares a Go version below 1.22: loop variables are shared by the iterations (counted in `loopShares`). -/\ndef loopVariablesShared : Bool := %v\n\nend FV.Generated.Locks\n", perLoopVarShared)
 	// human-readable report of what breaks the discipline (the Lean side decides; this is for the replay file)
